@@ -45,6 +45,7 @@ static size_t g_n1, g_n2;
 #define EQ(k) (LCC(s1, k) == LCC(s2, k))
 #endif
 
+#ifdef VMODE_CONTRACT
 #if SSEL <= 4
 bool FN(SIZED_STRING* s1, SIZED_STRING* s2)
     /* clang-format off */
@@ -76,9 +77,12 @@ __CPROVER_ensures((__CPROVER_return_value == 0) ==
     ;
 #endif
 
+#endif
+
 void* yr_malloc(size_t n) { return malloc(n); }
 #include "/repo/libyara/sizedstr.c"
 
+#ifdef VMODE_CONTRACT
 void harness(void)
 {
   SIZED_STRING *a, *b;
@@ -86,3 +90,47 @@ void harness(void)
   g_n1 = n1; g_n2 = n2;
   FN(a, b);
 }
+#else
+/* plain / native form (bounded witness search when the SMT solver answers "unknown" for a
+ * refuted quantified obligation, and native replay): strings of <= SMAX bytes in exact-size
+ * heap objects, the same postcondition as an executable predicate */
+#ifndef SMAX
+#define SMAX 4
+#endif
+#ifndef VNATIVE
+/* the table yr_initialize() builds (the contract form proves the functions for ANY table) */
+#define LC(i) ((i) >= 'A' && (i) <= 'Z' ? (i) + 32 : (i))
+#define LC4(i) LC(i), LC(i + 1), LC(i + 2), LC(i + 3)
+#define LC16(i) LC4(i), LC4(i + 4), LC4(i + 8), LC4(i + 12)
+#define LC64(i) LC16(i), LC16(i + 16), LC16(i + 32), LC16(i + 48)
+uint8_t yr_lowercase[256] = {LC64(0), LC64(64), LC64(128), LC64(192)};
+#endif
+void harness(void)
+{
+  V_IN_ARR(uint8_t, c1, SMAX);
+  V_IN_ARR(uint8_t, c2, SMAX);
+  V_IN(uint8_t, n1);
+  V_IN(uint8_t, n2);
+#ifdef VNATIVE
+  for (int i = 0; i < 256; i++) yr_lowercase[i] = (i >= 'A' && i <= 'Z') ? i + 32 : i;
+#endif
+  V_ASSUME(n1 <= SMAX && n2 <= SMAX);
+  SIZED_STRING* s1 = malloc(sizeof(SIZED_STRING) + n1);
+  SIZED_STRING* s2 = malloc(sizeof(SIZED_STRING) + n2);
+  V_ASSUME(s1 != NULL && s2 != NULL);
+  s1->length = n1; s2->length = n2; s1->flags = s2->flags = 0;
+  for (int i = 0; i < SMAX; i++) { if (i < n1) s1->c_string[i] = (char) c1[i]; if (i < n2) s2->c_string[i] = (char) c2[i]; }
+  s1->c_string[n1] = 0; s2->c_string[n2] = 0;
+  int all = 1;
+#if SSEL <= 4
+  bool r = FN(s1, s2);
+  if (n2 <= n1) { for (int k = 0; k < SMAX; k++) if (k < n2 && !EQ(k)) all = 0; }
+  V_ASSERT(r == (n2 <= n1 && all), "postcondition.return");
+#else
+  int r = FN(s1, s2);
+  for (int k = 0; k < SMAX; k++) if (k < n1 && k < n2 && !EQ(k)) all = 0;
+  V_ASSERT(r == 0 || r == 1 || r == -1, "postcondition.range");
+  V_ASSERT((r == 0) == (n1 == n2 && all), "postcondition.zero_iff_equal");
+#endif
+}
+#endif
